@@ -189,6 +189,8 @@ LEAF = {
     "L": ("l", (("s", "int", 1), ("s", "int", 2))),
 }
 KEYS = ("a", "b")
+# further leaf values (one-key universe X1): falsy explicit values, None, strings, empty containers and their defaults
+EXTRA_LEAVES = (0, False, None, "", 1, "s", D(0), D(None), D(False), D(1), [], {}, {"b": D(0)})
 
 
 def maps_full(depth: int, leaves: typing.Sequence[Canon]) -> typing.List[Canon]:
